@@ -1076,7 +1076,8 @@ theorem call_congr_ref (prev prev' : St) (h1 : cfg.keepPlus = true → prev.plus
         | .strip r => tailCall refTables cfg (pv.entry cfg) (r :: rest)
         | .keep => tailCall refTables cfg (pv.entry cfg) (c :: rest) := by
     intro pv
-    unfold call tailCall
+    rw [call_ref]
+    unfold callWith tailCall
     rfl
   rw [hcall prev, hcall prev']
   split
